@@ -329,7 +329,7 @@ fn reference_items(isa: &dyn Isa, p: &Prog, roots: &[u64]) -> Result<Vec<Item>, 
                 let r = isa.translator().translate_block(bytes, a, &Options::default()).map_err(|e| format!("isolated lift at {:#x}: {}", a, e))?;
                 let mut got: Vec<u64> = r.successors().iter().map(|s| s.0).collect();
                 let mut want = u.succ.clone();
-                got.sort(); want.sort();
+                got.sort(); want.sort(); got.dedup(); want.dedup(); // BlockTranslationResult::new joins successors with one target
                 if got != want {
                     return Err(format!("isolated lift at {:#x}: successors {:x?}, decoder says {:x?}", a, got, want));
                 }
@@ -629,6 +629,19 @@ fn gen_real(r: &mut Rng, mips: bool, fixed: Option<(u64, Vec<AIns>, usize)>) -> 
     Gen { prog: Prog { base, bytes, mapped }, fa, manual, tags, descr }
 }
 
+
+/// records what get_bytes + translate_block produced at every block address the default method asked for
+struct Logging<'a> {
+    inner: &'a dyn Translator,
+    log: std::cell::RefCell<Vec<(u64, Result<BlockTranslationResult, &'static str>)>>,
+}
+impl<'a> Translator for Logging<'a> {
+    fn translate_block(&self, bytes: &[u8], address: u64, options: &Options) -> Result<BlockTranslationResult, Error> {
+        let r = self.inner.translate_block(bytes, address, options);
+        self.log.borrow_mut().push((address, match &r { Ok(b) => Ok(b.clone()), Err(e) => Err(err_kind(e)) }));
+        r
+    }
+}
 // ------------------------------------------------------------------------------------------ one case
 fn run_case(isa: &dyn Isa, g: Gen, r: &mut Rng, toy: bool) -> Case {
     let Gen { prog, fa, manual, mut tags, descr } = g;
@@ -638,8 +651,14 @@ fn run_case(isa: &dyn Isa, g: Gen, r: &mut Rng, toy: bool) -> Case {
         options.add_manual_edge(ManualEdge::new(*h, *t, c.clone()));
     }
     let default_path = manual.is_empty() && r.chance(1, 2);
-    let obs = observe(|| if default_path { isa.translator().translate_function(&mem, fa) } else { isa.translator().translate_function_extended(&mem, fa, &options) });
+    let logging = Logging { inner: isa.translator(), log: std::cell::RefCell::new(vec![]) };
+    let obs = observe(|| if default_path { logging.translate_function(&mem, fa) } else { logging.translate_function_extended(&mem, fa, &options) });
+    let tb_log = logging.log.borrow().clone();
     tags.push(format!("res:{}", obs.kind()));
+    if std::env::var("C06_DEBUG").is_ok() {
+        let r = if default_path { isa.translator().translate_function(&mem, fa) } else { isa.translator().translate_function_extended(&mem, fa, &options) };
+        match r { Ok(f) => eprintln!("{}", f.control_flow_graph()), Err(e) => eprintln!("error: {:?}", e) }
+    }
 
     let mut it = Interner::new();
     let regs = isa.registers();
@@ -717,7 +736,13 @@ fn run_case(isa: &dyn Isa, g: Gen, r: &mut Rng, toy: bool) -> Case {
     let coq_items = coq_list(items.iter().map(|i| coq_item(i, &mut it)).collect::<Vec<_>>());
     let coq_manual = coq_list(manual.iter().map(|(h, t, c)| format!("(mkme {} {} {})", h, t, coq_opt(c.as_ref().map(|e| coq_expr(e, &mut it))))).collect::<Vec<_>>());
     let coq_obs = match &obs { Obs::Ok(f) => format!("(Ok {})", coq_function(f, &mut it)), Obs::Err(k) => format!("(Err {})", k), Obs::Panic => "Panic".to_string() };
-    let coq = format!("KRec {} {} {} {} {} {}", fa, coq_items, coq_manual, coq_list(inits), coq_bool(drv_ok), coq_obs);
+    let coq_tb = coq_list(tb_log.iter().map(|(a, r)| match r {
+        Ok(b) => format!("({}, Ok (mkbr {} {}))", a,
+            coq_list(b.instructions().iter().map(|(ia, g)| format!("({}, {})", ia, coq_cfg(g, None, &mut it))).collect::<Vec<_>>()),
+            coq_list(b.successors().iter().map(|(t, c)| format!("({}, {})", t, coq_opt(c.as_ref().map(|e| coq_expr(e, &mut it))))).collect::<Vec<_>>())),
+        Err(k) => format!("({}, Err {})", a, k),
+    }).collect::<Vec<_>>());
+    let coq = format!("KRec {} {} {} {} {} {} {}", fa, coq_items, coq_manual, coq_list(inits), coq_bool(drv_ok), coq_tb, coq_obs);
     let blocks = match &obs { Obs::Ok(f) => f.blocks().len(), _ => 0 };
     tags.push(format!("blocks:{}", if blocks < 3 { "<3" } else if blocks < 10 { "3-9" } else { ">=10" }));
     let mut hsh: u64 = 0xcbf29ce484222325;
@@ -795,12 +820,12 @@ fn gen_case(seed: u64, index: u64) -> Case {
 }
 
 fn main() {
-    quiet_panics();
+    if std::env::var("C06_DEBUG").is_err() { quiet_panics(); }
     let args = parse_args();
     let idxs: Vec<u64> = match args.only { Some(i) => vec![i], None => (0..args.n).collect() };
     let cases: Vec<Case> = idxs.iter().map(|i| gen_case(args.seed, *i)).collect();
     let nt = cases.iter().filter(|c| c.nontrivial).count();
     write_cases(&args, "C06",
-        "From Coq Require Import ZArith List NArith.\nFrom Falcon Require Import Base.Res IL.Const IL.Expr IL.Func Lift.C06Check.\nImport ListNotations.\nLocal Open Scope Z_scope.",
+        "From Coq Require Import ZArith List NArith.\nFrom Falcon Require Import Base.Res IL.Const IL.Expr IL.Func Lift.Recover Lift.C06Check.\nImport ListNotations.\nLocal Open Scope Z_scope.",
         "ck", &cases, 16, serde_json::json!({"nontrivial_programs": nt}));
 }
